@@ -312,6 +312,26 @@ func spec_sampleRoundtrip2(lsm1 uint8, n0, n1 *NALU) bool {
 		q.NALUs[1].NALRefIDC == n1.NALRefIDC && q.NALUs[1].NALUType == n1.NALUType && prim_eqbytes(q.NALUs[1].Data, n1.Data)
 }
 
+// ---------- AVCSample ----------
+
+// the samples of the statement: NAL length size 1..4, every NAL unit fits its length field
+func spec_wfSample(v *AVCSample) bool {
+	if v.lengthSizeMinusOne > 3 {
+		return false
+	}
+	lim := uint64(1) << (8 * (uint(v.lengthSizeMinusOne) + 1))
+	return prim_forall(len(v.NALUs), func(i int) bool { return spec_wfNALU(v.NALUs[i]) && uint64(1+len(v.NALUs[i].Data)) < lim })
+}
+
+//@ requires (*AVCSample).MarshalBinary
+func req_sampleMarshal(v *AVCSample) bool { return spec_wfSample(v) }
+
+// every well-formed sample can be marshalled (boundary sizes 255 / 65535 / 2^24-1 included) and nothing is modified
+//@ ensures (*AVCSample).MarshalBinary C12.sample.marshal.ok
+func ens_sampleMarshal_ok(v *AVCSample, old_v AVCSample, ret0 []byte, ret1 error) bool {
+	return ret1 == nil && v.lengthSizeMinusOne == old_v.lengthSizeMinusOne && len(v.NALUs) == len(old_v.NALUs)
+}
+
 // ---------- AVCSample: unbounded safety and termination of the decoder ----------
 
 //@ requires (*AVCSample).UnmarshalBinary
